@@ -4,6 +4,7 @@ import (
 	"context"
 	"fmt"
 	"os"
+	"path"
 	"path/filepath"
 	"sort"
 	"strings"
@@ -421,6 +422,7 @@ func checkC10(t *testing.T, env *report.Env, rep *report.Report) {
 	if env.Shard != 0 {
 		return
 	}
+	c10Prefixes(t, rep)
 	// FileClient and misconfiguration
 	fcSec := rep.Add(&report.Section{Name: "file-client-and-misconfiguration", Engine: "enum", Exhaustive: true, Extra: map[string]int64{},
 		Rule: "file-backed client with all / some declared secrets present; nil client; no secrets without lookup; empty name; duplicate-only lists: each must return at once (zero virtual time) with the stated result and no panic"})
@@ -490,4 +492,62 @@ func checkC10(t *testing.T, env *report.Env, rep *report.Report) {
 		fcSec.Samples = append(fcSec.Samples, fmt.Sprintf("%s -> err=%v after %v", c.name, err, elapsed))
 	}
 	fcSec.States, fcSec.Transitions = fcSec.Evaluations, fcSec.Evaluations
+}
+
+// c10Prefixes: struct-tagged declarations under prefixes of every spelling (clean or not). The service
+// can answer whatever spelling of the name is asked for, so the only demand is the statement's:
+// every declared secret has a value, hence NewStore succeeds at once and the fields are filled.
+func c10Prefixes(t *testing.T, rep *report.Report) {
+	sec := rep.Add(&report.Section{Name: "struct-prefix-spellings", Engine: "enum", Exhaustive: true, Extra: map[string]int64{},
+		Rule: "struct-tagged declarations under the prefixes \"\", p, p/, ./p, p//q, p/./q, /p × lookup allowed or not × cache none/empty, with a service that holds every spelling of every name: NewStore must succeed without retry and fill the fields with a value served for that field's name; non-trivial = prefixes that are not in clean form"})
+	for _, prefix := range []string{"", "p", "p/", "./p", "p//q", "p/./q", "/p"} {
+		for _, lookup := range []bool{false, true} {
+			for _, withCache := range []bool{false, true} {
+				var v sAB
+				var err error
+				var reqs []string
+				synctest.Test(t, func(t *testing.T) {
+					svc := NewSvc()
+					start := time.Now()
+					svc.now = func() time.Duration { return time.Since(start) }
+					for _, tag := range []string{"a", "b"} {
+						for _, n := range []string{tag, path.Join(prefix, tag), prefix + "/" + tag, prefix + tag, path.Clean("/" + prefix + "/" + tag)} {
+							if n != "" && svc.S[n] == nil {
+								svc.Put(n)
+							}
+						}
+					}
+					cfg := setec.StoreConfig{Client: svc, PollInterval: -1, AllowLookup: lookup, Logf: func(string, ...any) {}, Structs: []setec.Struct{{Value: &v, Prefix: prefix}}}
+					if withCache {
+						cfg.Cache = &HCache{}
+					}
+					ctx, cancel := context.WithTimeout(context.Background(), 30*time.Second)
+					defer cancel()
+					var st *setec.Store
+					st, err = setec.NewStore(ctx, cfg)
+					for _, r := range svc.Log {
+						reqs = append(reqs, r.Name)
+					}
+					if st != nil {
+						st.Close()
+					}
+				})
+				sec.Evaluations++
+				if prefix != path.Clean(prefix) && prefix != "" {
+					sec.Nontrivial++
+				}
+				desc := fmt.Sprintf("prefix %q lookup=%v cache=%v", prefix, lookup, withCache)
+				served := func(val, tag string) bool {
+					return strings.HasSuffix(strings.TrimSuffix(val, "#v1"), tag) && strings.HasSuffix(val, "#v1")
+				}
+				switch {
+				case err != nil:
+					rep.Violate(sec.Name, "construct/prefix-spurious-failure: "+desc, fmt.Sprintf("%s: NewStore failed (%v) although the service answered every request (%v)", desc, err, reqs), map[string]any{"prefix": prefix})
+				case !served(v.A, "a") || !served(string(v.B), "b"):
+					rep.Violate(sec.Name, "construct/prefix-fields: "+desc, fmt.Sprintf("%s: fields A=%q B=%q are not values served for their names (requests %v)", desc, v.A, v.B, reqs), map[string]any{"prefix": prefix})
+				}
+			}
+		}
+	}
+	sec.States, sec.Transitions = sec.Evaluations, sec.Evaluations
 }
